@@ -5,7 +5,7 @@ P="$1"; shift
 cd /repo || exit 9
 if ! git diff --quiet; then echo "/repo has uncommitted changes" >&2; exit 9; fi
 trap 'git -C /repo checkout -- . ; git -C /repo clean -fdq -e "*.pyc" paramiko tests 2>/dev/null' EXIT INT TERM
-git apply "$P" 2>/dev/null || patch -p1 -s -F3 --no-backup-if-mismatch < "$P" || { echo "patch does not apply" >&2; exit 9; }
+git apply "$P" 2>/dev/null || { echo "patch does not apply" >&2; exit 9; }
 for id in "$@"; do
   out=$(cd /verif && VERIF_EVIDENCE_DIR=/tmp/seed_evidence ./check "$id" --tier "${TIER:-quick}" 2>&1); rc=$?
   echo "== $id exit=$rc"; echo "$out" | grep -E "VIOLATION|KNOWN-FINDING|INCONCLUSIVE" | cut -c1-400 | head -6
